@@ -22,9 +22,10 @@ import (
 type gate struct {
 	d        core.Limiter
 	mu       sync.Mutex
-	parkFail bool
-	parkOK   bool
-	parked   chan chan struct{}
+	parkFail    bool
+	parkOK      bool
+	parkRelease bool
+	parked      chan chan struct{}
 }
 
 func (g *gate) Acquire(ctx context.Context) (core.Listener, bool) {
@@ -37,8 +38,33 @@ func (g *gate) Acquire(ctx context.Context) (core.Listener, bool) {
 		g.parked <- c
 		<-c
 	}
+	if ok && l != nil {
+		l = &gatedListener{g: g, l: l}
+	}
 	return l, ok
 }
+
+// gatedListener: when the gate's parkRelease is armed, a completion parks before it reaches the delegate (a slow release)
+type gatedListener struct {
+	g *gate
+	l core.Listener
+}
+
+func (x *gatedListener) pause() {
+	x.g.mu.Lock()
+	p := x.g.parkRelease
+	x.g.parkRelease = false
+	x.g.mu.Unlock()
+	if p {
+		c := make(chan struct{})
+		x.g.parked <- c
+		<-c
+	}
+}
+func (x *gatedListener) OnSuccess() { x.pause(); x.l.OnSuccess() }
+func (x *gatedListener) OnIgnore()  { x.pause(); x.l.OnIgnore() }
+func (x *gatedListener) OnDropped() { x.pause(); x.l.OnDropped() }
+func (g *gate) armRelease()         { g.mu.Lock(); g.parkRelease = true; g.mu.Unlock() }
 func (g *gate) arm(fail, ok bool) { g.mu.Lock(); g.parkFail, g.parkOK = fail, ok; g.mu.Unlock() }
 
 func newGated(limitN int) (*gate, *strategy.PreciseStrategy) {
@@ -125,6 +151,102 @@ func raceF8deadline(t *testing.T) (res raceResult) {
 		}
 		synctest.Wait()
 	})
+	return
+}
+
+// B2: a slow completion - the holder's release is parked before it reaches the delegate.  Whatever the wrapper does around the
+// delegate call, once the completion has finished the blocked caller must hold the freed token (a Broadcast issued before the
+// token is actually back wakes the caller too early: it retries, fails and sleeps for good).
+func raceB2(t *testing.T) (res raceResult) {
+	res.Sig = "blocking:lost-wakeup:broadcast-before-release"
+	synctest.Test(t, func(t *testing.T) {
+		g, st := newGated(1)
+		bl := limiter.NewBlockingLimiter(g, 0, nil)
+		holder, _ := bl.Acquire(context.Background())
+		type ans struct {
+			l  core.Listener
+			ok bool
+		}
+		done := make(chan ans, 1)
+		ctx, cancel := context.WithCancel(context.Background())
+		go func() { l, ok := bl.Acquire(ctx); done <- ans{l, ok} }()
+		synctest.Wait() // the caller sleeps
+		g.armRelease()
+		go holder.OnSuccess()
+		c := <-g.parked // the completion is inside the wrapper, the token is not back yet
+		synctest.Wait() // anything the wrapper did before reaching the delegate has taken effect
+		close(c)
+		synctest.Wait()
+		select {
+		case a := <-done:
+			if a.ok {
+				a.l.OnIgnore()
+			}
+		default:
+			res.Failed = true
+			res.Detail = fmt.Sprintf("caller still asleep after the completion finished, %d/1 tokens held", st.GetBusyCount())
+		}
+		cancel()
+		synctest.Wait()
+		if st.GetBusyCount() == 0 {
+			if h, ok := bl.Acquire(context.Background()); ok {
+				h.OnIgnore()
+			}
+		}
+		synctest.Wait()
+	})
+	return
+}
+
+// Q2 (real time: the second completion waits on a mutex, which a bubble cannot wait out): two completions overlap, the first one's
+// hand-off is slow; both waiters must end up served - the second completion must not skip its hand-off because the first is busy.
+func raceQ2(t *testing.T) (res raceResult) {
+	res.Sig = "queue:lost-handoff:overlapping-completions"
+	g, st := newGated(2)
+	q := limiter.NewQueueBlockingLimiterFromConfig(g, limiter.QueueLimiterConfig{Ordering: limiter.OrderingFIFO, MaxBacklogSize: 5, MaxBacklogTimeout: 5 * time.Second})
+	h1, ok1 := q.Acquire(context.Background())
+	h2, ok2 := q.Acquire(context.Background())
+	if !ok1 || !ok2 {
+		t.Fatal("setup: could not acquire")
+	}
+	served := make(chan core.Listener, 2)
+	for i := 0; i < 2; i++ {
+		go func() {
+			if l, ok := q.Acquire(context.Background()); ok {
+				served <- l
+			} else {
+				served <- nil
+			}
+		}()
+	}
+	time.Sleep(30 * time.Millisecond) // both are queued
+	g.arm(false, true)
+	go h1.OnSuccess()
+	c := <-g.parked // first hand-off: delegate acquired, parked before the send
+	g.arm(false, false)
+	go h2.OnSuccess()
+	time.Sleep(30 * time.Millisecond) // the second completion has reached the limiter
+	close(c)
+	n := 0
+	deadline := time.After(2 * time.Second)
+	for n < 2 {
+		select {
+		case l := <-served:
+			if l != nil {
+				n++
+				defer l.OnIgnore()
+			} else {
+				n = 99
+			}
+		case <-deadline:
+			res.Failed = true
+			res.Detail = fmt.Sprintf("two completions, two waiters: only %d served after 2 s, %d/2 tokens held, %d backlog entries", n, st.GetBusyCount(), q.VerifBacklogLen())
+			return
+		}
+	}
+	if n == 99 {
+		res.Failed, res.Detail = true, "a waiter was refused although both tokens were released"
+	}
 	return
 }
 
@@ -532,7 +654,7 @@ func runRaces(t *testing.T, rep *Report, races ...func(*testing.T) raceResult) {
 func TestC10Races(t *testing.T) {
 	rep := NewReport("C10races")
 	defer rep.Write(t)
-	runRaces(t, rep, raceF8, raceF8deadline, raceF8poll, raceF9a, raceF9b, raceF9c)
+	runRaces(t, rep, raceF8, raceF8deadline, raceF8poll, raceB2, raceF9a, raceF9b, raceF9c, raceQ2)
 }
 func TestC12Races(t *testing.T) {
 	rep := NewReport("C12races")
